@@ -6,6 +6,7 @@ id="$1"; prop="$2"; tier="${3:-quick}"; wt=/tmp/wt/$id
 cd $wt || exit 2
 cp -r _seed /tmp/_seed_$id
 git checkout -q -- . ; git clean -qfd -e _seed
+git checkout -q --detach "$(git -C /repo rev-parse HEAD)" || { echo "cannot move the worktree to /repo HEAD"; exit 2; }
 /venv/bin/python _seed/demo.py >/dev/null 2>&1; without=$?
 git apply _seed/patch.diff || { echo "patch does not apply to a clean worktree"; exit 2; }
 suite=$(/venv/bin/python -m pytest -q -p no:cacheprovider 2>&1 | tail -1)
